@@ -1200,6 +1200,18 @@ class PendingClassDef(_PendingCompoundStmt[ClassDef]):
             ],
         )
         return_list.append(load_class)
+
+        if self.node.decorator_list:
+            # apply the class decorators (bottom-up) and rebind the name
+            decorated = self.nsp.get_load_name(self.node.name)
+            for dec_expr in reversed(self.node.decorator_list):
+                decorated = Call(
+                    func=expr_transf(self.nsp, dec_expr),
+                    args=[decorated],
+                    keywords=[],
+                )
+            return_list.append(self.nsp.get_assign(self.node.name, decorated))
+
         return return_list
 
 
